@@ -123,7 +123,7 @@ pub fn c14(args: &Args, reg: &[TypeEntry], log: &mut Log) {
                 checks.insert("as=twin".into(), json!({"equal": ta == tb, "as": ta, "twin": tb}));
             }
         }
-        for (role, twin) in [("variant-as", "variant-twin"), ("variant-as-struct", "variant-twin"), ("as-inline", "inline"), ("nv-as-inline", "nv-inline-twin")] {
+        for (role, twin) in [("variant-as", "variant-twin"), ("variant-as-struct", "variant-twin"), ("variant-as-unit", "variant-twin"), ("variant-as-skipped", "variant-twin"), ("as-inline", "inline"), ("nv-as-inline", "nv-inline-twin")] {
             if let (Some(a), Some(b)) = (texts.get(role), texts.get(twin)) {
                 let renamed = |v: &Value| -> Option<String> {
                     let t = v["decl"]["Ok"].as_str()?;
